@@ -1012,7 +1012,9 @@ void run(Src &src, Case &c)
             // the two parenthesisation diagnostics have been repaired for plain operands; what is left needs a unary plus in
             // between, so a model that contains one gets its own (listed) signature and a regression of the repair stays visible
             const bool paren = f == "-Wparentheses" || f == "-Wlogical-not-parentheses";
-            c.alsoFailed.emplace_back("C17.diagnostic|" + f + (paren && hasUnaryPlus ? "|with-unary-plus" : ""), "cc -std=c99 -Wall -Wextra reports " + std::to_string(bad.size()) + " diagnostics other than unused-parameter / unused-variable, first of this kind: " + (first.empty() ? bad[0] : first) + "\n--- implementation ---\n" + impl.substr(0, 8000));
+            // ... and "&& within ||" below a unary plus is a shape of its own (not covered by the repair of the comparison rule)
+            const bool andInOr = (first.empty() ? bad[0] : first).find("'&&' within '||'") != std::string::npos;
+            c.alsoFailed.emplace_back("C17.diagnostic|" + f + (paren && hasUnaryPlus ? "|with-unary-plus" : "") + (paren && hasUnaryPlus && andInOr ? "|and-in-or" : ""), "cc -std=c99 -Wall -Wextra reports " + std::to_string(bad.size()) + " diagnostics other than unused-parameter / unused-variable, first of this kind: " + (first.empty() ? bad[0] : first) + "\n--- implementation ---\n" + impl.substr(0, 8000));
         }
         if (warnings.find("[-Wunused-parameter]") != std::string::npos) c.cls("diag:unused-parameter");
         if (warnings.find("[-Wunused-variable]") != std::string::npos) c.cls("diag:unused-variable");
